@@ -5,6 +5,7 @@
 //! to sign.  Nothing here is about rounding or conditioning (outside the claim); PSD cone: LAPACK, out.
 use crate::fp::*;
 use crate::gen::*;
+use clarabel::algebra::verif_hooks::{MatrixShape, MatrixTriangle};
 use clarabel::algebra::*;
 use clarabel::verif_hooks::cones::*;
 use clarabel::verif_hooks::core::ScalingStrategy;
@@ -200,14 +201,25 @@ fn soc_update_scaling<const P: u16, const D: usize>(check_sparse: bool) {
     }
     assert!(plus || minus, "lambda_equals_Wz_up_to_root_sign");
     if check_sparse {
-        let sd = c.sparse_data.as_ref().unwrap();
+        let (su, sv, sdd) = {
+            let sd = c.sparse_data.as_ref().unwrap();
+            let mut su = [Fp::<P>::zero(); D];
+            let mut sv = [Fp::<P>::zero(); D];
+            let mut i = 0;
+            while i < D {
+                su[i] = sd.u[i];
+                sv[i] = sd.v[i];
+                i += 1;
+            }
+            (su, sv, sd.d)
+        };
         let x: [Fp<P>; D] = anyv();
         let mut ux = Fp::<P>::zero();
         let mut vx = Fp::<P>::zero();
         let mut i = 0;
         while i < D {
-            ux = ux + sd.u[i] * x[i];
-            vx = vx + sd.v[i] * x[i];
+            ux = ux + su[i] * x[i];
+            vx = vx + sv[i] * x[i];
             i += 1;
         }
         let mut hx = [Fp::<P>::zero(); D];
@@ -218,11 +230,11 @@ fn soc_update_scaling<const P: u16, const D: usize>(check_sparse: bool) {
         c.get_Hs(&mut dblk);
         let mut i = 0;
         while i < D {
-            let want = dblk[i] * x[i] + e2 * (sd.u[i] * ux - sd.v[i] * vx);
+            let want = dblk[i] * x[i] + e2 * (su[i] * ux - sv[i] * vx);
             assert!(want == hx[i], "sparse_expansion_D_plus_uut_minus_vvt_is_the_operator_mul_Hs");
             i += 1;
         }
-        assert!(dblk[0] == e2 * sd.d && dblk[1] == e2, "sparse_diagonal_block_is_eta2_times_diag(d,1,..)");
+        assert!(dblk[0] == e2 * sdd && dblk[1] == e2, "sparse_diagonal_block_is_eta2_times_diag(d,1,..)");
     }
     kani::cover!(s[1].0 != 0 && z[2].0 != 0 && c.w[1].0 != 0, "interior points with nonzero tails");
 }
